@@ -54,13 +54,13 @@ def configs(tier):
             for step, interp, w in (('1', 'splrep', 2), ('1/2', 'splrep', 1), ('1/3', 'splrep', 3), ('1', 'pchip', 2), ('1/2', 'mono_pchip', 3),
                                     ('1/3', 'pchip', 1)):
                 out.append(cfg(6, stop, step, interp, w))
+        for n, stop in ((6, 'fixed1'), (6, 'fixed2'), (7, 'fixed1')):
+            ii = cfg(n, stop, '1', 'splrep', 2)
+            out.append((ii[0] + '-int-input', dict(ii[1], int_input=True)))
         for step, w in (('1', 2), ('1/2', 1)):
             c = cfg(6, 'sd', step, 'splrep', w)
             c[1]['_budget_s'] = 150
             out.append(c)
-        for n, stop in ((6, 'fixed1'), (6, 'fixed2'), (7, 'fixed1')):
-            ii = cfg(n, stop, '1', 'splrep', 2)
-            out.append((ii[0] + '-int-input', dict(ii[1], int_input=True)))
     return out
 
 
